@@ -353,6 +353,30 @@ def _amplitude_enters_once(ctx):
     ix = ctx.index
     NAME = "static_amplitude_factor"
     sites, bad = [], []
+    # injection-time functions: update_E / update_H of sources and every function of the sources package whose call
+    # sites (matched by name) all lie in injection-time functions (helpers factored out of the updates)
+    src_fns = {}
+    for mi in ix.modules.values():
+        if not mi.name.startswith("fdtdx.objects.sources."):
+            continue
+        for fi in list(mi.functions.values()) + [m for c in getattr(mi, "classes", {}).values() for m in c.methods.values()]:
+            src_fns.setdefault(fi.name, []).append(fi)
+    call_sites = {}
+    for mi in ix.modules.values():
+        for fi in list(mi.functions.values()) + [m for c in getattr(mi, "classes", {}).values() for m in c.methods.values()]:
+            for node in ast.walk(fi.node):
+                if isinstance(node, ast.Call):
+                    callee = node.func.attr if isinstance(node.func, ast.Attribute) else getattr(node.func, "id", None)
+                    if callee in src_fns:
+                        call_sites.setdefault(callee, set()).add((mi.name, fi.name))
+    injection = {"update_E", "update_H"}
+    changed = True
+    while changed:
+        changed = False
+        for name_, where in call_sites.items():
+            if name_ not in injection and where and all(f_ in injection and m_.startswith("fdtdx.objects.sources.") for m_, f_ in where):
+                injection.add(name_)
+                changed = True
     for mi in ix.modules.values():
         fns = list(mi.functions.values()) + [m for c in getattr(mi, "classes", {}).values() for m in c.methods.values()]
         for fi in fns:
@@ -363,7 +387,7 @@ def _amplitude_enters_once(ctx):
                     continue
                 site = f"{mi.name}.{fi.name}"
                 sites.append(site)
-                at_injection = fi.name in ("update_E", "update_H") and mi.name.startswith("fdtdx.objects.sources.")
+                at_injection = fi.name in injection and mi.name.startswith("fdtdx.objects.sources.")
                 helper = isinstance(node, ast.Name) and NAME in params and mi.name.startswith("fdtdx.objects.sources.")
                 if not (at_injection or helper):
                     bad.append(f"{site}: {ast.unparse(node)}")
